@@ -68,6 +68,15 @@ func StrOps(s string, i, j int) (int, int) {
 	return len(t) + len(hexDigits), int(t[0])
 }
 
+// index-only range over a constant ASCII string: the rune starts are the byte indices
+func AsciiRange(k int) int {
+	n := 0
+	for i := range hexDigits {
+		n += (i + k) * int(hexDigits[i])
+	}
+	return n
+}
+
 // string(b) of a byte is the UTF-8 encoding of the rune b
 func HighByte(b uint8) string { return string(b) }
 
